@@ -5044,9 +5044,23 @@ def _svd_worker(a, full_matrices, compute_uv, overwrite_a, cutoff, qtotal_LR, in
         return (None, S, None)
     # else: compute_uv is True
     if full_matrices:
-        new_leg_L = a.legs[0].conj()
-        new_leg_R = a.legs[1].conj()
+        # U and VH are block-diagonal in the blocks of a.legs[0] and a.legs[1], respectively.
+        # gauge the charges of the new legs to get the desired qtotal_LR
+        leg_L, leg_R = a.legs
+        new_leg_L = LegCharge.from_qind(
+            chinfo, leg_L.slices, chinfo.make_valid(leg_L.charges - leg_L.qconj * qtotal_L), -leg_L.qconj
+        )
+        new_leg_R = LegCharge.from_qind(
+            chinfo, leg_R.slices, chinfo.make_valid(leg_R.charges - leg_R.qconj * qtotal_R), -leg_R.qconj
+        )
         qi_L, qi_R = a._qdata.T
+        # complete U, VH to unitaries by identities on blocks of the legs without a block in `a`
+        missing_L = np.setdiff1d(np.arange(leg_L.block_number), qi_L)
+        missing_R = np.setdiff1d(np.arange(leg_R.block_number), qi_R)
+        U_data.extend([np.eye(leg_L.slices[qi + 1] - leg_L.slices[qi], dtype=a.dtype) for qi in missing_L])
+        VH_data.extend([np.eye(leg_R.slices[qi + 1] - leg_R.slices[qi], dtype=a.dtype) for qi in missing_R])
+        qi_L = np.concatenate([qi_L, missing_L])
+        qi_R = np.concatenate([qi_R, missing_R])
         U_qdata = np.stack([qi_L, qi_L], axis=1).astype(np.intp)
         VH_qdata = np.stack([qi_R, qi_R], axis=1).astype(np.intp)
     else:
@@ -5070,7 +5084,7 @@ def _svd_worker(a, full_matrices, compute_uv, overwrite_a, cutoff, qtotal_LR, in
     VH._qdata = VH_qdata
     if full_matrices:
         U._qdata_sorted = np.all(qi_L[:-1] < qi_L[1:])
-        VH._qdata_sorted = a._qdata_sorted
+        VH._qdata_sorted = np.all(qi_R[:-1] < qi_R[1:])
     else:
         U._qdata_sorted = a._qdata_sorted
         VH._qdata_sorted = a._qdata_sorted
